@@ -421,19 +421,32 @@ func resume(what string) {
 	}
 }
 
+// OnSend, when non-nil, observes every rewritten channel send: before (done=false) and after
+// (done=true) the value has been handed over.
+var OnSend func(v any, done bool)
+
 // Send is a rewritten channel send statement (outside select).
 func Send[T any](ch chan<- T, v T) {
 	if Active == nil {
 		ch <- v
 		return
 	}
+	if OnSend != nil {
+		OnSend(v, false)
+	}
 	select {
 	case ch <- v:
+		if OnSend != nil {
+			OnSend(v, true)
+		}
 		return
 	default:
 	}
 	ch <- v
 	resume("send")
+	if OnSend != nil {
+		OnSend(v, true)
+	}
 }
 
 // Sleep is time.Sleep followed by re-entering the simulation through the scheduler.
